@@ -879,6 +879,15 @@ pub fn case_cli(ctx: &mut Ctx, case: &Value) {
                             }
                         } else if knife && d_other <= 1e-8 {
                             ctx.skipped_illcond += 1;
+                        } else if {
+                            // the file's game and the generator's differ by the constant-sum offset
+                            // the program computes (a payoff shift): where the trajectory hangs on an
+                            // exact zero of a cumulative regret, rounding decides it
+                            let c1 = crate::solve_props::Cfg { method: "F".into(), params, iters: iters.min(200), thr: maxreg, threads: 1, target: None, seed: 0 };
+                            crate::solve_props::model_margin(ctx, &it.tree, &c1) < 1e-6
+                        } {
+                            ctx.skipped_illcond += 1;
+                            ctx.stat("library_comparison_ill_conditioned");
                         } else {
                             ctx.fail_prop(case, format!("printed strategies differ from Game::solve with the same parameters{} by {:e}; {}", if clip > 0.0 { " and clip step" } else { "" }, d, shown));
                         }
